@@ -98,6 +98,9 @@ where
                 }
             }
         };
+        // a body that keeps handing out frames without ever ending (e.g. empty chunks for ever) is as stuck as one
+        // that keeps returning Pending: the budget covers every item and Pending of the script several times over
+        let ev = if out.events.len() > 4 * budget + 64 { Ev::Stuck } else { ev };
         let terminal = matches!(ev, Ev::End | Ev::Err(_) | Ev::Trailers(_) | Ev::Stuck);
         let stuck = matches!(ev, Ev::Stuck);
         out.events.push(ev);
